@@ -500,6 +500,7 @@ func vC22AsWritten(t *testing.T, tr *lib.Trace, r *rand.Rand, n int) {
 	for i := 0; i < n; i++ {
 		s1, s2 := r.Uint64(), r.Uint64()
 		var before, after, shape string
+		ruleCol := false
 		msg := lib.Catch(func() {
 			ftS := newFT(s1, s2)
 			defer ftS.db.Close()
@@ -507,13 +508,16 @@ func vC22AsWritten(t *testing.T, tr *lib.Trace, r *rand.Rand, n int) {
 			qS := fuzzRandom(ftS)
 			before = String(qS)
 			shape = vqshape(qS)
-			if p, ok := qS.(*Project); ok {
-				// a projected rule column whose dependency is not projected (the rule reads ""
-				// once the project is moved towards the table)
-				for _, c := range p.columns {
-					if dep, ok := ftS.ruleDeps[c]; ok && !vhasStr(p.columns, dep) {
-						shape += "+rulecol"
-						break
+			// the query mentions a rule column of the generator (Rule_<col> is global: it is
+			// evaluated for any row, also of a source that does not have the column, and without
+			// dependencies that a rewrite projected away): one signature suffix for the family
+			for rule := range ftS.rules {
+				col := strings.TrimPrefix(rule, "Rule_")
+				for _, w := range strings.FieldsFunc(before, func(c rune) bool {
+					return !(c == '_' || c >= '0' && c <= '9' || c >= 'a' && c <= 'z' || c >= 'A' && c <= 'Z')
+				}) {
+					if w == col {
+						ruleCol = true
 					}
 				}
 			}
@@ -555,10 +559,10 @@ func vC22AsWritten(t *testing.T, tr *lib.Trace, r *rand.Rand, n int) {
 			sort.Strings(got)
 			tr.Count("own-rows=" + vbucket(len(exp)))
 			if strings.Join(exp, "\n") != strings.Join(got, "\n") {
-				tr.Fail("aswritten-rows:"+shape, fmt.Sprintf("newFT(%d,%d) fuzzRandom: %s | executes: %s | as written %d rows, executed %d rows; first as-written row: %s; first executed row: %s",
+				tr.Fail("aswritten-rows:"+shape+vruleSuffix(ruleCol), fmt.Sprintf("newFT(%d,%d) fuzzRandom: %s | executes: %s | as written %d rows, executed %d rows; first as-written row: %s; first executed row: %s",
 					s1, s2, vtrunc(before, 300), vtrunc(after, 300), len(exp), len(got), vtrunc(vfirst(exp), 200), vtrunc(vfirst(got), 200)))
 			} else if strings.Join(vnoDeps(cols0), ",") != strings.Join(vnoDeps(cols), ",") {
-				tr.Fail("aswritten-cols:"+shape, fmt.Sprintf("newFT(%d,%d) fuzzRandom: %s | executes: %s | as-written columns %v, executed columns %v",
+				tr.Fail("aswritten-cols:"+shape+vruleSuffix(ruleCol), fmt.Sprintf("newFT(%d,%d) fuzzRandom: %s | executes: %s | as-written columns %v, executed columns %v",
 					s1, s2, vtrunc(before, 300), vtrunc(after, 300), cols0, cols))
 			}
 			if i < 2 {
@@ -574,6 +578,13 @@ func vC22AsWritten(t *testing.T, tr *lib.Trace, r *rand.Rand, n int) {
 				vtrunc(before, 300), vtrunc(after, 300), vtrunc(msg, 200)))
 		}
 	}
+}
+
+func vruleSuffix(ruleCol bool) string {
+	if ruleCol {
+		return "+rulecol"
+	}
+	return ""
 }
 
 func vnoDeps(cols []string) []string {
